@@ -283,6 +283,7 @@ func runEncoding(e *Enc, fn *ssa.Function, props []string) {
 		// locals of the function may be named in postconditions (value at this return)
 		retIdx := len(r.instr.Block().Instrs) - 1
 		env.lookup = f.resolverAtPoint(r.instr.Block(), retIdx, nil, r.state)
+		env.retInstr = r.instr
 		if sp != nil {
 			for _, en := range sp.Ensures {
 				f.undefArbitrary = true
